@@ -63,7 +63,9 @@ type pipeConn struct {
 	rdeadline  bool // a read deadline is set
 	rtimedout  bool // the current wait for input already produced its timeout
 	log        *evlog
-	signal     chan struct{} // poked on: blocked, closed, write
+	signal     chan struct{	eofWithData bool // the final Read returns its bytes together with io.EOF
+	readCap     int  // > 0: no Read returns more than this many bytes
+} // poked on: blocked, closed, write
 }
 
 func newPipeConn(log *evlog) *pipeConn {
@@ -91,6 +93,20 @@ func (c *pipeConn) feed(b []byte) {
 	c.mu.Unlock()
 }
 
+// feedFinal delivers the last bytes and the end of the stream at once
+func (c *pipeConn) feedFinal(b []byte) {
+	c.mu.Lock()
+	if len(b) > 0 {
+		c.chunks = append(c.chunks, b)
+		c.eofWithData = true
+	}
+	c.eof = true
+	c.blocked = false
+	c.stall = false
+	c.cond.Broadcast()
+	c.mu.Unlock()
+}
+
 func (c *pipeConn) finish(reset bool) {
 	c.mu.Lock()
 	c.eof = true
@@ -109,12 +125,20 @@ func (c *pipeConn) Read(p []byte) (int, error) {
 			return 0, net.ErrClosed
 		}
 		if len(c.chunks) > 0 {
+			if c.readCap > 0 && len(p) > c.readCap {
+				p = p[:c.readCap] // the transport hands over at most readCap bytes per Read, however large the buffer offered
+			}
 			n := copy(p, c.chunks[0])
 			c.chunks[0] = c.chunks[0][n:]
 			if len(c.chunks[0]) == 0 {
 				c.chunks = c.chunks[1:]
 			}
 			c.delivered += n
+			if c.eofWithData && c.eof && !c.reset && len(c.chunks) == 0 {
+				// the io.Reader contract allows the last bytes and the end of the stream in ONE call (crypto/tls does it when
+				// the close_notify alert is already buffered behind the data)
+				return n, io.EOF
+			}
 			return n, nil
 		}
 		if c.eof {
